@@ -1,0 +1,182 @@
+//go:build verif
+
+// Contracts for the verifier in /verif (comment-only; compiled only with -tags verif, adds no code).
+package decoder
+
+// ---- C13/C02: index expression `coll[key]`. Both sides are values of their own: the collection is read as
+// ---- an expression of any type (its reference steps are marked like those of any other reference), the key
+// ---- as a string-typed expression, and the tokens of the collection come first.
+//@ contract (decoder.Any).semanticTokensForIndexExpr (a, ctx) (result, handled)
+//@   ghost collRead after invoke:SemanticTokens#1 : true
+//@   ghost collTokens after invoke:SemanticTokens#1 : callresult
+//@   ghost keyRead after invoke:SemanticTokens#2 : true
+//@   ghost keyTokens after invoke:SemanticTokens#2 : callresult
+//@   assert before decoder.newExpression#1 : [C13,name:collection-of-the-index-expression-as-any-type] arg0 == a.pathCtx && arg1 == as(a.expr, "*hclsyntax.IndexExpr").Collection && typeis(arg2, "schema.AnyExpression") && as(arg2, "schema.AnyExpression").OfType == cty.DynamicPseudoType
+//@   assert before decoder.newExpression#2 : [C13,name:key-of-the-index-expression-as-string] arg0 == a.pathCtx && arg1 == as(a.expr, "*hclsyntax.IndexExpr").Key && typeis(arg2, "schema.AnyExpression") && as(arg2, "schema.AnyExpression").OfType == cty.String
+//@   ensures [C13,name:handled-exactly-for-index-expressions] handled == typeis(a.expr, "*hclsyntax.IndexExpr")
+//@   ensures [C13,name:nothing-for-other-expressions] implies(!handled, len(result) == 0)
+//@   ensures [C13,C02,name:collection-and-key-are-both-read] implies(handled, collRead && keyRead && len(result) == len(collTokens) + len(keyTokens))
+
+// ---- C13: templates. A plain string literal is one literal of type string; every interpolated part of a
+// ---- template (and the wrapped expression of "${x}") is read as a string-typed expression, none is skipped,
+// ---- and the result is exactly what the parts yielded, in order of the parts.
+//@ spec tplOf(e hcl.Expression) *hclsyntax.TemplateExpr = as(e, "*hclsyntax.TemplateExpr")
+//@ contract (decoder.Any).semanticTokensForTemplateExpr (a, ctx) (result, handled)
+//@   ghost isLit after (*hclsyntax.TemplateExpr).IsStringLiteral#1 : callresult
+//@   ghost litRead after invoke:SemanticTokens#1 : true
+//@   ghost litTokens after invoke:SemanticTokens#1 : callresult
+//@   ghost partTokens after invoke:SemanticTokens#2 : callresult
+//@   ghost partRead after invoke:SemanticTokens#2 : true
+//@   ghost wrapRead after invoke:SemanticTokens#3 : true
+//@   ghost wrapTokens after invoke:SemanticTokens#3 : callresult
+//@   assert before decoder.newExpression#1 : [C13,name:string-literal-as-literal-of-type-string] isLit && arg0 == a.pathCtx && arg1 == a.expr && typeis(arg2, "schema.LiteralType") && as(arg2, "schema.LiteralType").Type == cty.String
+//@   assert before decoder.newExpression#2 : [C13,name:template-part-as-string-expression] arg0 == a.pathCtx && typeis(arg2, "schema.AnyExpression") && as(arg2, "schema.AnyExpression").OfType == cty.String
+//@   assert before decoder.newExpression#3 : [C13,name:wrapped-expression-as-string-expression] arg0 == a.pathCtx && arg1 == as(a.expr, "*hclsyntax.TemplateWrapExpr").Wrapped && typeis(arg2, "schema.AnyExpression") && as(arg2, "schema.AnyExpression").OfType == cty.String
+//@   ensures [C13,name:handled-exactly-for-templates] handled == (typeis(a.expr, "*hclsyntax.TemplateExpr") || typeis(a.expr, "*hclsyntax.TemplateWrapExpr"))
+//@   ensures [C13,name:nothing-for-other-expressions] implies(!handled, len(result) == 0)
+//@   ensures [C13,name:every-part-is-read] implies(typeis(a.expr, "*hclsyntax.TemplateExpr") && !isLit, pastloop(1))
+//@   assert before decoder.newExpression#2 : [C13,name:parts-in-written-order-from-the-first] arg1 == tplOf(a.expr).Parts[rangeindex + 1]
+//@   ensures [C13,name:up-to-the-last-part] implies(rangeindex + 1 != len(tplOf(a.expr).Parts), !pastloop(1))
+//@   ensures [C13,name:string-literal-yields-its-literal-token] implies(typeis(a.expr, "*hclsyntax.TemplateExpr") && isLit, litRead && len(result) == len(litTokens))
+//@   ensures [C13,name:wrapped-expression-yields-its-tokens] implies(typeis(a.expr, "*hclsyntax.TemplateWrapExpr"), wrapRead && len(result) == len(wrapTokens))
+//@   loop 1 iter [C13,name:tokens-of-each-part-are-kept] partRead && len(tokens) == old(len(tokens)) + len(partTokens)
+//@   loop 1 iter [C13,C02,name:tokens-of-each-part-are-kept] implies(len(partTokens) > 0 && !samearray(old(tokens), partTokens), tokens[len(tokens)-1].Type == partTokens[len(partTokens)-1].Type && tokens[len(tokens)-1].Range == partTokens[len(partTokens)-1].Range)
+
+// ---- C13: list and set. Every written element is read against the declared element constraint, and the
+// ---- result is what the elements yielded; anything that is not a tuple constructor gets no token.
+//@ contract (decoder.List).SemanticTokens (list, ctx) (result)
+//@   ghost elemRead after invoke:SemanticTokens#1 : true
+//@   ghost elemTokens after invoke:SemanticTokens#1 : callresult
+//@   assert before decoder.newExpression#1 : [C13,name:element-against-the-element-constraint] arg0 == list.pathCtx && arg2 == list.cons.Elem
+//@   ensures [C13,name:only-a-tuple-constructor-is-a-list] implies(!typeis(list.expr, "*hclsyntax.TupleConsExpr"), len(result) == 0)
+//@   ensures [C13,name:no-element-constraint-no-tokens] implies(list.cons.Elem == nil, len(result) == 0)
+//@   ensures [C13,name:every-element-is-read] implies(typeis(list.expr, "*hclsyntax.TupleConsExpr") && len(as(list.expr, "*hclsyntax.TupleConsExpr").Exprs) > 0 && list.cons.Elem != nil, pastloop(1))
+//@   loop 1 iter [C13,name:tokens-of-each-element-are-kept] elemRead && len(tokens) == old(len(tokens)) + len(elemTokens)
+//@   loop 1 iter [C13,C02,name:tokens-of-each-element-are-kept] implies(len(elemTokens) > 0 && !samearray(old(tokens), elemTokens), tokens[len(tokens)-1].Type == elemTokens[len(elemTokens)-1].Type && tokens[len(tokens)-1].Range == elemTokens[len(elemTokens)-1].Range)
+//@   assert before decoder.newExpression#1 : [C13,name:elements-in-written-order-from-the-first] arg1 == as(list.expr, "*hclsyntax.TupleConsExpr").Exprs[rangeindex + 1]
+//@   ensures [C13,name:up-to-the-last-element] implies(rangeindex + 1 != len(as(list.expr, "*hclsyntax.TupleConsExpr").Exprs), !pastloop(1))
+//@ contract (decoder.Set).SemanticTokens (set, ctx) (result)
+//@   ghost elemRead after invoke:SemanticTokens#1 : true
+//@   ghost elemTokens after invoke:SemanticTokens#1 : callresult
+//@   assert before decoder.newExpression#1 : [C13,name:element-against-the-element-constraint] arg0 == set.pathCtx && arg2 == set.cons.Elem
+//@   ensures [C13,name:only-a-tuple-constructor-is-a-set] implies(!typeis(set.expr, "*hclsyntax.TupleConsExpr"), len(result) == 0)
+//@   ensures [C13,name:no-element-constraint-no-tokens] implies(set.cons.Elem == nil, len(result) == 0)
+//@   ensures [C13,name:every-element-is-read] implies(typeis(set.expr, "*hclsyntax.TupleConsExpr") && len(as(set.expr, "*hclsyntax.TupleConsExpr").Exprs) > 0 && set.cons.Elem != nil, pastloop(1))
+//@   loop 1 iter [C13,name:tokens-of-each-element-are-kept] elemRead && len(tokens) == old(len(tokens)) + len(elemTokens)
+//@   loop 1 iter [C13,C02,name:tokens-of-each-element-are-kept] implies(len(elemTokens) > 0 && !samearray(old(tokens), elemTokens), tokens[len(tokens)-1].Type == elemTokens[len(elemTokens)-1].Type && tokens[len(tokens)-1].Range == elemTokens[len(elemTokens)-1].Range)
+//@   assert before decoder.newExpression#1 : [C13,name:elements-in-written-order-from-the-first] arg1 == as(set.expr, "*hclsyntax.TupleConsExpr").Exprs[rangeindex + 1]
+//@   ensures [C13,name:up-to-the-last-element] implies(rangeindex + 1 != len(as(set.expr, "*hclsyntax.TupleConsExpr").Exprs), !pastloop(1))
+
+// ---- C13: one-of. The expression itself is read against each alternative in the declared order; the first
+// ---- alternative that yields tokens decides, its tokens are the result, and an alternative is passed over
+// ---- only if it yielded nothing.
+//@ contract (decoder.OneOf).SemanticTokens (oo, ctx) (result)
+//@   ghost altRead after invoke:SemanticTokens#1 : true
+//@   ghost altTokens after invoke:SemanticTokens#1 : callresult
+//@   assert before decoder.newExpression#1 : [C13,name:same-expression-against-each-alternative] arg0 == oo.pathCtx && arg1 == oo.expr
+//@   assert before decoder.newExpression#1 : [C13,name:alternatives-in-declared-order-from-the-first] arg2 == oo.cons[rangeindex + 1]
+//@   loop 1 iter [C13,name:passed-over-only-if-it-yields-nothing] altRead && len(altTokens) == 0
+//@   ensures [C13,name:no-alternative-left-out] len(result) > 0 || rangeindex + 1 == len(oo.cons)
+//@   ensures [C13,C02,name:tokens-of-the-deciding-alternative-unchanged] implies(len(result) > 0, altRead && result == altTokens)
+//@   ensures [C13,name:stops-only-at-an-alternative-that-yields-tokens] implies(len(tokens) >= 0, len(result) > 0)
+
+// ---- C13: an expression under a type constraint that is not a collection literal. The handlers of operators,
+// ---- templates, conditionals, for-expressions and index expressions are all asked (each with this very
+// ---- expression and constraint) before the expression is taken for a reference, a function call or a literal;
+// ---- what the accepting handler yields is the result. Reference, function call and literal are read against the
+// ---- expected type, and a later reading is used only if the earlier ones yielded nothing.
+//@ contract (decoder.Any).semanticTokensForNonComplexExpr (a, ctx) (result)
+//@   ghost opAsked after (decoder.Any).semanticTokensForOperatorExpr#1 : true
+//@   ghost opOk after (decoder.Any).semanticTokensForOperatorExpr#1 : ok
+//@   ghost opTokens after (decoder.Any).semanticTokensForOperatorExpr#1 : tokens
+//@   ghost tplAsked after (decoder.Any).semanticTokensForTemplateExpr#1 : true
+//@   ghost tplOk after (decoder.Any).semanticTokensForTemplateExpr#1 : ok
+//@   ghost tplTokens after (decoder.Any).semanticTokensForTemplateExpr#1 : tokens
+//@   ghost condAsked after (decoder.Any).semanticTokensForConditionalExpr#1 : true
+//@   ghost condOk after (decoder.Any).semanticTokensForConditionalExpr#1 : ok
+//@   ghost condTokens after (decoder.Any).semanticTokensForConditionalExpr#1 : tokens
+//@   ghost forAsked after (decoder.Any).semanticTokensForForExpr#1 : true
+//@   ghost forOk after (decoder.Any).semanticTokensForForExpr#1 : ok
+//@   ghost forTokens after (decoder.Any).semanticTokensForForExpr#1 : tokens
+//@   ghost idxAsked after (decoder.Any).semanticTokensForIndexExpr#1 : true
+//@   ghost idxOk after (decoder.Any).semanticTokensForIndexExpr#1 : ok
+//@   ghost idxTokens after (decoder.Any).semanticTokensForIndexExpr#1 : tokens
+//@   ghost refAsked after (decoder.Reference).SemanticTokens#1 : true
+//@   ghost refTokens after (decoder.Reference).SemanticTokens#1 : callresult
+//@   ghost fnAsked after (decoder.functionExpr).SemanticTokens#1 : true
+//@   ghost fnTokens after (decoder.functionExpr).SemanticTokens#1 : callresult
+//@   ghost litAsked after (decoder.LiteralType).SemanticTokens#1 : true
+//@   ghost litTokens after (decoder.LiteralType).SemanticTokens#1 : callresult
+//@   assert before (decoder.Any).semanticTokensForOperatorExpr#1 : [C13,name:handler-reads-this-expression] arg0.expr == a.expr && arg0.cons == a.cons && arg0.pathCtx == a.pathCtx
+//@   assert before (decoder.Any).semanticTokensForTemplateExpr#1 : [C13,name:handler-reads-this-expression] arg0.expr == a.expr && arg0.cons == a.cons && arg0.pathCtx == a.pathCtx
+//@   assert before (decoder.Any).semanticTokensForConditionalExpr#1 : [C13,name:handler-reads-this-expression] arg0.expr == a.expr && arg0.cons == a.cons && arg0.pathCtx == a.pathCtx
+//@   assert before (decoder.Any).semanticTokensForForExpr#1 : [C13,name:handler-reads-this-expression] arg0.expr == a.expr && arg0.cons == a.cons && arg0.pathCtx == a.pathCtx
+//@   assert before (decoder.Any).semanticTokensForIndexExpr#1 : [C13,name:handler-reads-this-expression] arg0.expr == a.expr && arg0.cons == a.cons && arg0.pathCtx == a.pathCtx
+//@   assert before (decoder.Reference).SemanticTokens#1 : [C13,name:reference-of-the-expected-type] arg0.expr == a.expr && arg0.cons.OfType == a.cons.OfType && arg0.pathCtx == a.pathCtx
+//@   assert before (decoder.Reference).SemanticTokens#1 : [C13,name:plain-reading-only-after-every-handler-declined] opAsked && !opOk && tplAsked && !tplOk && condAsked && !condOk && forAsked && !forOk && idxAsked && !idxOk
+//@   assert before (decoder.functionExpr).SemanticTokens#1 : [C13,name:function-call-returning-the-expected-type] arg0.expr == a.expr && arg0.returnType == a.cons.OfType && arg0.pathCtx == a.pathCtx
+//@   assert before (decoder.functionExpr).SemanticTokens#1 : [C13,name:function-call-only-if-not-a-reference] refAsked && len(refTokens) == 0
+//@   assert before (decoder.LiteralType).SemanticTokens#1 : [C13,name:literal-of-the-expected-type] arg0.expr == a.expr && arg0.cons.Type == a.cons.OfType && arg0.pathCtx == a.pathCtx
+//@   assert before (decoder.LiteralType).SemanticTokens#1 : [C13,name:literal-only-if-neither-reference-nor-function-call] refAsked && len(refTokens) == 0 && fnAsked && len(fnTokens) == 0
+//@   ensures [C13,C02,name:tokens-of-the-accepting-handler] implies(opOk, result == opTokens)
+//@   ensures [C13,C02,name:tokens-of-the-accepting-handler] implies(tplOk, result == tplTokens)
+//@   ensures [C13,C02,name:tokens-of-the-accepting-handler] implies(condOk, result == condTokens)
+//@   ensures [C13,C02,name:tokens-of-the-accepting-handler] implies(forOk, result == forTokens)
+//@   ensures [C13,C02,name:tokens-of-the-accepting-handler] implies(idxOk, result == idxTokens)
+//@   ensures [C13,C02,name:reference-tokens-unchanged] implies(refAsked && len(refTokens) > 0, result == refTokens)
+//@   ensures [C13,C02,name:function-tokens-unchanged] implies(fnAsked && len(fnTokens) > 0, result == fnTokens)
+//@   ensures [C13,C02,name:literal-tokens-unchanged] implies(litAsked, result == litTokens)
+//@   ensures [C13,name:some-reading-decides] opOk || tplOk || condOk || forOk || idxOk || (refAsked && len(refTokens) > 0) || (fnAsked && len(fnTokens) > 0) || litAsked
+
+// ---- C13/C02: literals under a type constraint. A primitive literal is one token: it covers exactly the literal,
+// ---- carries no modifiers, and its type is that of the written value (bool, number, string) - and only if that
+// ---- value converts to the expected type; a quoted string without interpolation is one string token, and only
+// ---- where a string is expected. Collection literals are read with the element type(s) of the expected type as
+// ---- literal constraints (no interpolated keys), and what they yield is returned unchanged.
+//@ spec lve(e hcl.Expression) *hclsyntax.LiteralValueExpr = as(e, "*hclsyntax.LiteralValueExpr")
+//@ spec isLitOf(c schema.Constraint, t cty.Type) bool = typeis(c, "schema.LiteralType") && as(c, "schema.LiteralType").Type == t
+//@ spec expectedType(t cty.Type, declared cty.Type, written cty.Type) bool = t == declared || (declared == cty.DynamicPseudoType && t == written)
+//@ contract (decoder.LiteralType).SemanticTokens (lt, ctx) (result)
+//@   ghost dynType after invoke:Value#1 : val.Type()
+//@   ghost strLit after (*hclsyntax.TemplateExpr).IsStringLiteral#1 : callresult
+//@   ghost converts after convert.Convert#1 : err == nil
+//@   ghost asList after invoke:SemanticTokens#1 : true
+//@   ghost listTokens after invoke:SemanticTokens#1 : callresult
+//@   ghost asSet after invoke:SemanticTokens#2 : true
+//@   ghost setTokens after invoke:SemanticTokens#2 : callresult
+//@   ghost asTuple after invoke:SemanticTokens#3 : true
+//@   ghost tupleTokens after invoke:SemanticTokens#3 : callresult
+//@   ghost asMap after invoke:SemanticTokens#4 : true
+//@   ghost mapTokens after invoke:SemanticTokens#4 : callresult
+//@   ghost asObject after invoke:SemanticTokens#5 : true
+//@   ghost objectTokens after invoke:SemanticTokens#5 : callresult
+//@   ghost attrs after decoder.ctyObjectToObjectAttributes#1 : callresult
+//@   assert before convert.Convert#1 : [C13,name:written-value-against-the-expected-type] arg0 == lve(lt.expr).Val && arg1 == typ && expectedType(typ, lt.cons.Type, dynType)
+//@   assert before decoder.newExpression#1 : [C13,name:list-literal-with-the-element-type] typ.IsListType() && expectedType(typ, lt.cons.Type, dynType) && arg0 == lt.pathCtx && arg1 == lt.expr && typeis(arg2, "schema.List") && isLitOf(as(arg2, "schema.List").Elem, typ.ElementType())
+//@   assert before decoder.newExpression#2 : [C13,name:set-literal-with-the-element-type] typ.IsSetType() && expectedType(typ, lt.cons.Type, dynType) && arg0 == lt.pathCtx && arg1 == lt.expr && typeis(arg2, "schema.Set") && isLitOf(as(arg2, "schema.Set").Elem, typ.ElementType())
+//@   assert before decoder.newExpression#3 : [C13,name:tuple-literal-with-one-constraint-per-element-type] typ.IsTupleType() && expectedType(typ, lt.cons.Type, dynType) && arg0 == lt.pathCtx && arg1 == lt.expr && typeis(arg2, "schema.Tuple") && len(as(arg2, "schema.Tuple").Elems) == len(typ.TupleElementTypes())
+//@   loop 1 iter [C13,name:tuple-element-constraint-is-the-literal-of-its-type] isLitOf(cons.Elems[i], elemType) && elemType == elemTypes[i]
+//@   assert before decoder.newExpression#4 : [C13,name:map-literal-with-the-element-type] typ.IsMapType() && expectedType(typ, lt.cons.Type, dynType) && arg0 == lt.pathCtx && arg1 == lt.expr && typeis(arg2, "schema.Map") && isLitOf(as(arg2, "schema.Map").Elem, typ.ElementType()) && !as(arg2, "schema.Map").AllowInterpolatedKeys
+//@   assert before decoder.ctyObjectToObjectAttributes#1 : [C13,name:object-attributes-of-the-expected-type] arg0 == typ && typ.IsObjectType() && expectedType(typ, lt.cons.Type, dynType)
+//@   assert before decoder.newExpression#5 : [C13,name:object-literal-with-the-attributes-of-the-type] arg0 == lt.pathCtx && arg1 == lt.expr && typeis(arg2, "schema.Object") && as(arg2, "schema.Object").Attributes == attrs && !as(arg2, "schema.Object").AllowInterpolatedKeys
+//@   ensures [C13,C02,name:collection-tokens-unchanged] implies(asList, result == listTokens) && implies(asSet, result == setTokens) && implies(asTuple, result == tupleTokens) && implies(asMap, result == mapTokens) && implies(asObject, result == objectTokens)
+//@   ensures [C13,name:a-literal-is-one-token] implies(!asList && !asSet && !asTuple && !asMap && !asObject, len(result) <= 1)
+//@   ensures [C13,C02,name:token-covers-exactly-the-literal] implies(!asList && !asSet && !asTuple && !asMap && !asObject && len(result) == 1, result[0].Range == lt.expr.Range() && len(result[0].Modifiers) == 0)
+//@   ensures [C13,name:only-literals-are-tokens] implies(!asList && !asSet && !asTuple && !asMap && !asObject && len(result) == 1, typeis(lt.expr, "*hclsyntax.LiteralValueExpr") || typeis(lt.expr, "*hclsyntax.TemplateExpr"))
+//@   ensures [C13,name:quoted-string-only-where-a-string-is-expected] implies(!asList && !asSet && !asTuple && !asMap && !asObject && len(result) == 1 && typeis(lt.expr, "*hclsyntax.TemplateExpr"), strLit && result[0].Type == lang.TokenString && typ == cty.String)
+//@   ensures [C13,name:primitive-literal-only-if-it-converts] implies(!asList && !asSet && !asTuple && !asMap && !asObject && len(result) == 1 && typeis(lt.expr, "*hclsyntax.LiteralValueExpr"), converts)
+//@   ensures [C13,name:token-type-is-the-type-of-the-written-value] implies(!asList && !asSet && !asTuple && !asMap && !asObject && len(result) == 1 && typeis(lt.expr, "*hclsyntax.LiteralValueExpr"), (result[0].Type == lang.TokenBool && lve(lt.expr).Val.Type() == cty.Bool) || (result[0].Type == lang.TokenNumber && lve(lt.expr).Val.Type() == cty.Number) || (result[0].Type == lang.TokenString && lve(lt.expr).Val.Type() == cty.String))
+//@   ensures [C13,name:convertible-primitive-literal-gets-its-token] implies(converts && (lve(lt.expr).Val.Type() == cty.Bool || lve(lt.expr).Val.Type() == cty.Number || lve(lt.expr).Val.Type() == cty.String), len(result) == 1)
+
+// ---- C13/C02: the tokens of a file are the tokens of the root body of THAT file of this path, read with the
+// ---- path's schema and no inherited modifiers; nothing is added or dropped behind the collection (the order is
+// ---- the returns-sorted line and the comparator contract in zz_verif_contracts.go); an unknown file is an
+// ---- error, not an empty answer, and without a schema nothing is known, so nothing is marked.
+//@ contract (*decoder.PathDecoder).SemanticTokensInFile (d, ctx, filename) (result, err)
+//@   ghost collected after (*decoder.PathDecoder).tokensForBody#1 : true
+//@   ghost bodyTokens after (*decoder.PathDecoder).tokensForBody#1 : callresult
+//@   assert before (*decoder.PathDecoder).tokensForBody#1 : [C13,C02,name:root-body-of-the-named-file-with-the-path-schema] arg0 == d && haskey(d.pathCtx.Files, filename) && arg2 == as(d.pathCtx.Files[filename].Body, "*hclsyntax.Body") && arg3 == d.pathCtx.Schema && arg3 != nil && len(arg4) == 0
+//@   ensures [C02,name:unknown-file-is-an-error] implies(!old(haskey(d.pathCtx.Files, filename)), err != nil)
+//@   ensures [C13,C02,name:no-tokens-with-an-error] implies(err != nil, len(result) == 0)
+//@   ensures [C13,name:no-schema-nothing-known] implies(err == nil && old(d.pathCtx.Schema) == nil, len(result) == 0)
+//@   ensures [C13,name:exactly-the-collected-tokens] implies(err == nil && old(d.pathCtx.Schema) != nil, collected && result == bodyTokens)
